@@ -139,6 +139,7 @@ def reuse_sequences(ctx, eps, grad=False):
                     break
     if not grad:
         affinity_then_evaluate(ctx, eps, rs)
+        integer_costs(ctx, eps, rs)
         large_n(ctx, eps, rs)
     return out
 
@@ -148,12 +149,32 @@ def affinity_then_evaluate(ctx, eps, rs):
     of the two matrices — the value must be the definition for the matrix that was PASSED, whatever was computed last"""
     import gemclus.gemini as G
     how = "g = <Class>(kernel/metric=name); A1 = g.compute_affinity(X1); A2 = g.compute_affinity(X2); g(P, A1); g(P, A2)"
+    from sklearn.metrics import pairwise_kernels, pairwise_distances
+    import copy as _copy
     for cls, ovo in [c for c in gl.CONFIGS if c[0] in ("mmd", "wass")]:
-        for name in (["linear", "rbf", "laplacian"] if cls == "mmd" else ["euclidean", "manhattan"]):
+        for name in (["linear", "rbf", "laplacian", "poly", "sigmoid"] if cls == "mmd" else ["euclidean", "manhattan"]):
             n, K, d = int(rs.randint(4, 8)), int(rs.randint(2, 4)), int(rs.randint(1, 4))
-            g = (G.MMDGEMINI(ovo=ovo, kernel=name, epsilon=eps) if cls == "mmd" else G.WassersteinGEMINI(ovo=ovo, metric=name, epsilon=eps))
-            X1, X2 = rs.randn(n, d), rs.randn(n, d) * 3 + 1
+            # a parameter dictionary WITHOUT the data-dependent default (gamma = 1/n_features): it belongs to the caller and the
+            # two data sets have different numbers of features
+            params = {"poly": {"degree": 2}, "sigmoid": {"coef0": 0.5}, "rbf": {}, "laplacian": None}.get(name) if cls == "mmd" else None
+            given = _copy.deepcopy(params)
+            if cls == "mmd":
+                g = G.MMDGEMINI(ovo=ovo, kernel=name, kernel_params=params, epsilon=eps)
+            else:
+                g = G.WassersteinGEMINI(ovo=ovo, metric=name, epsilon=eps)
+            X1, X2 = rs.randn(n, d), rs.randn(n, d + 2) * 3 + 1
             A1, A2 = g.compute_affinity(X1), g.compute_affinity(X2)
+            if params != given:
+                ctx.violation(f"compute_affinity changed the caller's parameter dictionary from {given!r} to {params!r}", "score:reuse",
+                              {"config": f"{cls}_{'ovo' if ovo else 'ova'}", "name": name, "kernel_params": given}, key=f"params-mutated:{cls}", how=how)
+            for tag, Xd, Ad in (("first", X1, A1), ("second", X2, A2)):
+                ref = (pairwise_kernels(Xd, metric=name, **(given or {})) if cls == "mmd" else pairwise_distances(Xd, metric=name))
+                if not np.allclose(np.asarray(Ad, float), ref, rtol=1e-12, atol=1e-14):
+                    ctx.violation(f"the {tag} affinity computed by one object is not scikit-learn's {name} with the parameters given "
+                                  f"({given!r}): max deviation {float(np.abs(np.asarray(Ad, float) - ref).max()):.3g}", "score:reuse",
+                                  {"config": f"{cls}_{'ovo' if ovo else 'ova'}", "name": name, "kernel_params": given, "X": Xd.tolist()},
+                                  key=f"affinity-then-evaluate:params:{cls}", how=how)
+                    break
             P = gl.gen_P(rs, n, K, "soft")
             for tag, A in (("first", A1), ("second", A2), ("first again", A1)):
                 got = float(g(P.copy(), A))
@@ -173,15 +194,45 @@ def affinity_then_evaluate(ctx, eps, rs):
                     break
 
 
+def integer_costs(ctx, eps, rs):
+    """a precomputed distance matrix with integer entries (hop counts, Manhattan distances on a grid) handed over as int64 /
+    int32 / float64: the value is the definition for those numbers whatever their dtype"""
+    how = "WassersteinGEMINI(metric='precomputed')(P, D) with D an integer-valued matrix of the listed dtype"
+    for ovo in (False, True):
+        n, K = int(rs.randint(4, 7)), int(rs.randint(2, 4))
+        pts = rs.randint(0, 5, size=(n, 2))
+        D = np.abs(pts[:, None, :] - pts[None, :, :]).sum(-1)
+        P = gl.gen_P(rs, n, K, "soft")
+        want = gl.spec_score("wass", ovo, P, D.astype(float))
+        for dt in (np.float64, np.int64, np.int32):
+            g = gl.real_gemini("wass", ovo, eps)
+            try:
+                got = float(g(P.copy(), D.astype(dt)))
+            except Exception as e:
+                ctx.violation(f"evaluate raised {type(e).__name__}: {e} on a {np.dtype(dt).name} distance matrix", "score",
+                              {"config": f"wass_{'ovo' if ovo else 'ova'}", "dtype": np.dtype(dt).name, "P": P.tolist(), "D": D.tolist()},
+                              key=f"dtype-raise:wass", how=how)
+                continue
+            ctx.compared("score:integer-cost")
+            ctx.case(("intcost", ovo, np.dtype(dt).name, P.tobytes(), D.tobytes()), True, None)
+            tol = score_tol("wass", D.astype(float))
+            if not core.close(got, want, rtol=tol, atol=tol):
+                ctx.violation(f"integer-valued distance matrix given as {np.dtype(dt).name}: score {got!r}, the definition gives {want!r}", "score",
+                              {"config": f"wass_{'ovo' if ovo else 'ova'}", "dtype": np.dtype(dt).name, "P": P.tolist(), "D": D.tolist()},
+                              expected=want, actual=got, key=f"score-dtype:wass_{'ovo' if ovo else 'ova'}", how=how)
+
+
 def large_n(ctx, eps, rs):
     """sample counts far beyond the correspondence sizes (the Lean driver is interpreted): oracle only.  Sizes straddle
     powers of two, rows are sorted by confidence (an implementation that processes the samples in blocks must still weigh
     every sample equally); with and without return_grad"""
     sizes = [257, 300, 513] if ctx.tier == "quick" else [255, 256, 257, 300, 511, 513, 640, 777, 1025]
+    wide = [(500, 12), (300, 16), (150, 30)] if ctx.tier == "quick" else [(500, 12), (456, 12), (300, 16), (1200, 8), (150, 30), (700, 10)]
     how = "gemclus.gemini.<Class>(ovo).evaluate(P, A, return_grad) on a large sample vs harness.gemini_lib.spec_score"
     for cls, ovo in [c for c in gl.CONFIGS if c[0] != "wass"]:
-        for n in ([sizes[rs.randint(len(sizes))]] if ctx.tier == "quick" else sizes):
-            K = int(rs.randint(2, 5))
+        shapes = [(n, int(rs.randint(2, 5))) for n in ([sizes[rs.randint(len(sizes))]] if ctx.tier == "quick" else sizes)]
+        shapes += [wide[rs.randint(len(wide))]] if ctx.tier == "quick" else wide      # many clusters: N x K x K intermediates
+        for n, K in shapes:
             P = gl.gen_P(rs, n, K, "soft")
             P = P[np.argsort(P.max(1))]
             A = gl.gen_affinity(rs, n, "rbf") if cls == "mmd" else None
